@@ -87,8 +87,9 @@ def rule_installed(ctx: Ctx) -> None:
     ctx.check(okc, "C10.2", "LoanManager hands the exchange context to the lending strategy", lm_init, lm_init.node,
               "set_exchange_context called in __init__", "lending strategy never receives the exchange context",
               key_text="context handed over")
+    from .common import margin_check_fn
     chk = ctx.func(f"{MARGIN}.CheckMarginLevel.check")
-    calls = [c for c in A.func_calls(chk) if (A.call_name(c) or "").endswith("._check_margin_level")]
+    calls = [c for c in A.func_calls(chk) if (A.call_name(c) or "").endswith("._check_margin_level") or (A.call_name(c) or "").endswith("._calculate_margin_level")]
     okp = bool(calls) and [A.dotted(a) for a in calls[0].args] == chk.params[1:4]
     ctx.check(okp, "C10.2", "the rule forwards the three updated maps in order", chk, calls[0] if calls else chk.node,
               "check(b, h, r) -> _check_margin_level(b, h, r)", "CheckMarginLevel.check does not forward its arguments in order")
@@ -180,7 +181,8 @@ def _path_without_edge(g, target, via, label):
 
 def rule_sentinel(ctx: Ctx) -> None:
     calc = ctx.func(f"{MARGIN}.MarginLoans._calculate_margin_level")
-    chk = ctx.func(f"{MARGIN}.MarginLoans._check_margin_level")
+    from .common import margin_check_fn
+    chk = margin_check_fn(ctx)
     # 1. sentinel: the return under the 'nothing borrowed' test
     sent: Any = "missing"
     sent_node = None
@@ -343,7 +345,8 @@ def rule_early_exit(ctx: Ctx) -> None:
                   n.test, f"early exit only when no borrowed amount grows {tbl}",
                   f"the early exit is taken when a borrowed amount grows ({tbl}): a loan is granted without the margin check")
     if not exits:
-        fn = ctx.func(f"{MARGIN}.MarginLoans._check_margin_level")
+        from .common import margin_check_fn
+        fn = margin_check_fn(ctx)
         ctx.ok("C10.5", "no early exit before the margin check", fn, fn.node, "every update reaches the guard",
                key_text="no early exit")
 
@@ -497,7 +500,8 @@ def rule_no_swallowed_price(ctx: Ctx) -> None:
     valued at zero and the loan granted."""
     from .. import summaries as S
     sm = S.get(ctx)
-    roots = [f"{MARGIN}.MarginLoans._calculate_margin_level", f"{MARGIN}.MarginLoans._check_margin_level", f"{MARGIN}.CheckMarginLevel.check"]
+    roots = [q_ for q_ in (f"{MARGIN}.MarginLoans._calculate_margin_level", f"{MARGIN}.MarginLoans._check_margin_level", f"{MARGIN}.CheckMarginLevel.check")
+             if q_ in ctx.repo.funcs]
     reach = sorted(q for q in A.reachable(ctx, roots) if q.startswith("basana.backtesting."))
     ctx.floor("C10.7", "functions on the valuation path", len(reach), 8)
     n_h = 0
